@@ -137,7 +137,7 @@ func (s *state) exec(f []string) string {
 		return v, err == nil
 	}
 	// option numbers are uint16
-	if len(f) > 1 && f[0] != "setpath" && f[0] != "setloc" && f[0] != "addquery" && f[0] != "resetto" && f[0] != "resetself" {
+	if len(f) > 1 && f[0] != "setpath" && f[0] != "setloc" && f[0] != "addquery" && f[0] != "resetto" && f[0] != "resetself" && f[0] != "resetslice" {
 		if v, ok := num(1); !ok || v > 65535 {
 			return "bad-op"
 		}
@@ -262,6 +262,26 @@ func (s *state) exec(f []string) string {
 				in = append(in, cur[int(i)%len(cur)])
 			}
 		}
+		if s.pool {
+			c.msg.ResetOptionsTo(in)
+			return fmt.Sprintf("ret ok %d", s.tail())
+		}
+		return s.rawDone(c.opts.ResetOptionsTo(c.buf, in))
+	case "resetslice":
+		// reset the object to the slice [k:k+n] of ITS OWN option slice: `in` shares the backing array with the receiver
+		// (m.ResetOptionsTo(m.Options()[k:k+n])); k and n are normalised into range
+		if len(f) != 3 {
+			return "bad-op"
+		}
+		k64, e1 := strconv.ParseUint(f[1], 10, 32)
+		n64, e2 := strconv.ParseUint(f[2], 10, 32)
+		if e1 != nil || e2 != nil {
+			return "bad-op"
+		}
+		cur := s.options()
+		k := int(k64) % (len(cur) + 1)
+		n := int(n64) % (len(cur) - k + 1)
+		in := cur[k : k+n]
 		if s.pool {
 			c.msg.ResetOptionsTo(in)
 			return fmt.Sprintf("ret ok %d", s.tail())
